@@ -99,7 +99,7 @@ def make_case(rng, i):
         for s_, refs in spec["state_refs"].items():
             for g in refs:
                 refs[g] = [r for r in refs[g] if keep(r)]
-    spec["state_field"] = rng.choice(["state", "state", "st", "status_code", "workflow_step"]) if shape != "default" else "state"
+    spec["state_field"] = rng.choice(["state", "state", "st", "status_code", "workflow_step"])
     sids = [s["id"] for s in spec["states"]]
     construct = {"op": "construct", "val": gen.gen_valuation(rng, spec)}
     r = rng.random()
